@@ -1,0 +1,80 @@
+//go:build verif
+
+package queue
+
+// Contracts for govc (see /verif/DESIGN.md). Comments only; compiled only with -tags verif.
+
+//@ spec
+//@ ghost var storeNow time.Time
+//@ pred validState(st State) := st == StateQueued || st == StateLeased || st == StateDelivered || st == StateDead || st == StateCanceled
+//@ pred liveLease(s *MemoryStore, l string, now time.Time) := l in s.leases && s.leases[l] in s.items && s.items[s.leases[l]].State == StateLeased && s.items[s.leases[l]].LeaseID == l && (s.items[s.leases[l]].LeaseUntil == 0 || now < s.items[s.leases[l]].LeaseUntil)
+//@ pred expiredLease(s *MemoryStore, l string, now time.Time) := l in s.leases && s.leases[l] in s.items && s.items[s.leases[l]].State == StateLeased && s.items[s.leases[l]].LeaseID == l && s.items[s.leases[l]].LeaseUntil != 0 && now >= s.items[s.leases[l]].LeaseUntil
+//@ pred immutableSame(e *Envelope) := e.ID == old(e.ID) && e.Route == old(e.Route) && e.Target == old(e.Target) && e.Payload == old(e.Payload) && e.Headers == old(e.Headers) && e.Trace == old(e.Trace) && e.ReceivedAt == old(e.ReceivedAt) && e.SchemaVersion == old(e.SchemaVersion)
+//@ pred released(e *Envelope, now time.Time) := e.State == StateQueued && e.LeaseID == "" && e.LeaseUntil == 0 && e.NextRunAt == now && e.DeadReason == "" && e.Attempt == old(e.Attempt) && immutableSame(e)
+
+//@ pred othersUntouched(s *MemoryStore, id string) := forall id2 string :: id2 != id ==> ((id2 in s.items) <==> old(id2 in s.items)) && s.items[id2] == old(s.items[id2]) && (id2 in s.items ==> same(s.items[id2]))
+//@ pred viewUnchanged(s *MemoryStore) := forall id2 string :: ((id2 in s.items) <==> old(id2 in s.items)) && s.items[id2] == old(s.items[id2]) && (id2 in s.items ==> same(s.items[id2]))
+//@ pred leasesSameExcept(s *MemoryStore, l string) := forall l2 string :: l2 != l ==> ((l2 in s.leases) <==> old(l2 in s.leases)) && s.leases[l2] == old(s.leases[l2])
+//@ pred leasesSame(s *MemoryStore) := forall l2 string :: ((l2 in s.leases) <==> old(l2 in s.leases)) && s.leases[l2] == old(s.leases[l2])
+//@ pred staleNoEffect(s *MemoryStore, l string, now time.Time) := (old(expiredLease(s, l, now)) && othersUntouched(s, old(s.leases[l])) && old(s.leases[l]) in s.items && s.items[old(s.leases[l])] == old(s.items[s.leases[l]]) && released(s.items[old(s.leases[l])], now) && !(l in s.leases) && leasesSameExcept(s, l)) || (!old(expiredLease(s, l, now)) && viewUnchanged(s) && leasesSameExcept(s, l) && (l in s.leases ==> old(l in s.leases) && s.leases[l] == old(s.leases[l])))
+//@ pred settled(e *Envelope, st State, now time.Time, reason string) := e.State == st && e.LeaseID == "" && e.LeaseUntil == 0 && e.NextRunAt == now && e.DeadReason == reason && e.Attempt == old(e.Attempt) && immutableSame(e)
+
+//@ fieldfunc queue.MemoryStore.nowFn() (t)
+//@   modifies storeNow
+//@   ensures t != 0 && storeNow == t
+
+//@ type MemoryStore monitor mu
+//@   guards items, order, leases, attempts, trendRows, notify, lastPrune, evictionsTotalByReason, memoryPressureRejects
+//@   inv [J0] self.items != nil && self.leases != nil
+//@   inv [J1] forall id string :: id in self.items ==> self.items[id] != nil && self.items[id].ID == id
+//@   inv [J2] forall id string :: !(id in self.items) ==> self.items[id] == nil
+//@   inv [J3a] forall id string :: id in self.items && self.items[id].State == StateLeased ==> self.items[id].LeaseID != "" && self.items[id].LeaseID in self.leases && self.leases[self.items[id].LeaseID] == id
+//@   inv [J3b] forall id string :: id in self.items && self.items[id].State != StateLeased ==> self.items[id].LeaseID == ""
+//@   inv [J4] forall l string :: l in self.leases ==> self.leases[l] in self.items && self.items[self.leases[l]].State == StateLeased && self.items[self.leases[l]].LeaseID == l
+//@   inv [J5] forall id string :: id in self.items ==> validState(self.items[id].State)
+//@   inv [J6] forall id string :: id in self.items ==> self.items[id].Attempt >= 0
+
+//@ func (*MemoryStore).requeueLocked
+//@   monitor locked
+//@   requires s != nil && env != nil && s.leases != nil
+//@   modifies s.leases, env.State, env.LeaseID, env.LeaseUntil, env.NextRunAt, env.DeadReason
+//@   ensures [released] env.State == StateQueued && env.LeaseID == "" && env.LeaseUntil == 0 && env.NextRunAt == now && env.DeadReason == ""
+//@   ensures [lease_removed] !(old(env.LeaseID) in s.leases)
+//@   ensures [other_leases] forall l string :: l != old(env.LeaseID) ==> ((l in s.leases) <==> old(l in s.leases)) && s.leases[l] == old(s.leases[l])
+
+//@ func (*MemoryStore).Ack
+//@   requires s != nil
+//@   modifies s.leases, s.items, Envelope.State, Envelope.LeaseID, Envelope.LeaseUntil, Envelope.NextRunAt, Envelope.DeadReason, storeNow
+//@   ensures [C04:live_ok] let now := storeNow :: old(liveLease(s, leaseID, now)) ==> result == nil
+//@   ensures [C04:stale_err] let now := storeNow :: !old(liveLease(s, leaseID, now)) ==> result == ErrLeaseNotFound || result == ErrLeaseExpired
+//@   ensures [C04:stale_no_effect] let now := storeNow :: !old(liveLease(s, leaseID, now)) ==> staleNoEffect(s, leaseID, now)
+//@   ensures [C02:ack_effect_retained] let now := storeNow :: old(liveLease(s, leaseID, now)) && s.deliveredRetentionMaxAge > 0 ==> old(s.leases[leaseID]) in s.items && s.items[old(s.leases[leaseID])] == old(s.items[s.leases[leaseID]]) && settled(s.items[old(s.leases[leaseID])], StateDelivered, now, "")
+//@   ensures [C02:ack_effect_removed] let now := storeNow :: old(liveLease(s, leaseID, now)) && s.deliveredRetentionMaxAge <= 0 ==> !(old(s.leases[leaseID]) in s.items)
+//@   ensures [C02:ack_others] let now := storeNow :: old(liveLease(s, leaseID, now)) ==> othersUntouched(s, old(s.leases[leaseID])) && !(leaseID in s.leases) && leasesSameExcept(s, leaseID)
+
+//@ func (*MemoryStore).Nack
+//@   requires s != nil
+//@   modifies s.leases, Envelope.State, Envelope.LeaseID, Envelope.LeaseUntil, Envelope.NextRunAt, Envelope.DeadReason, storeNow
+//@   ensures [C04:live_ok] let now := storeNow :: old(liveLease(s, leaseID, now)) ==> result == nil
+//@   ensures [C04:stale_err] let now := storeNow :: !old(liveLease(s, leaseID, now)) ==> result == ErrLeaseNotFound || result == ErrLeaseExpired
+//@   ensures [C04:stale_no_effect] let now := storeNow :: !old(liveLease(s, leaseID, now)) ==> staleNoEffect(s, leaseID, now)
+//@   ensures [C05:nack_effect] let now := storeNow :: old(liveLease(s, leaseID, now)) ==> old(s.leases[leaseID]) in s.items && s.items[old(s.leases[leaseID])] == old(s.items[s.leases[leaseID]]) && settled(s.items[old(s.leases[leaseID])], StateQueued, now + max(delay, 0), "")
+//@   ensures [C02:nack_others] let now := storeNow :: old(liveLease(s, leaseID, now)) ==> othersUntouched(s, old(s.leases[leaseID])) && !(leaseID in s.leases) && leasesSameExcept(s, leaseID)
+
+//@ func (*MemoryStore).MarkDead
+//@   requires s != nil
+//@   modifies s.leases, Envelope.State, Envelope.LeaseID, Envelope.LeaseUntil, Envelope.NextRunAt, Envelope.DeadReason, storeNow
+//@   ensures [C04:live_ok] let now := storeNow :: old(liveLease(s, leaseID, now)) ==> result == nil
+//@   ensures [C04:stale_err] let now := storeNow :: !old(liveLease(s, leaseID, now)) ==> result == ErrLeaseNotFound || result == ErrLeaseExpired
+//@   ensures [C04:stale_no_effect] let now := storeNow :: !old(liveLease(s, leaseID, now)) ==> staleNoEffect(s, leaseID, now)
+//@   ensures [C02:dead_effect] let now := storeNow :: old(liveLease(s, leaseID, now)) ==> old(s.leases[leaseID]) in s.items && s.items[old(s.leases[leaseID])] == old(s.items[s.leases[leaseID]]) && settled(s.items[old(s.leases[leaseID])], StateDead, now, reason)
+//@   ensures [C02:dead_others] let now := storeNow :: old(liveLease(s, leaseID, now)) ==> othersUntouched(s, old(s.leases[leaseID])) && !(leaseID in s.leases) && leasesSameExcept(s, leaseID)
+
+//@ func (*MemoryStore).Extend
+//@   requires s != nil
+//@   modifies s.leases, Envelope.State, Envelope.LeaseID, Envelope.LeaseUntil, Envelope.NextRunAt, Envelope.DeadReason, storeNow
+//@   ensures [C04:nonpositive_noop] extendBy <= 0 ==> result == nil && viewUnchanged(s) && leasesSame(s)
+//@   ensures [C04:live_ok] let now := storeNow :: extendBy > 0 && old(liveLease(s, leaseID, now)) ==> result == nil
+//@   ensures [C04:stale_err] let now := storeNow :: extendBy > 0 && !old(liveLease(s, leaseID, now)) ==> result == ErrLeaseNotFound || result == ErrLeaseExpired
+//@   ensures [C04:stale_no_effect] let now := storeNow :: extendBy > 0 && !old(liveLease(s, leaseID, now)) ==> staleNoEffect(s, leaseID, now)
+//@   ensures [C02:extend_effect] let now := storeNow :: extendBy > 0 && old(liveLease(s, leaseID, now)) ==> othersUntouched(s, old(s.leases[leaseID])) && leasesSame(s) && old(s.leases[leaseID]) in s.items && s.items[old(s.leases[leaseID])] == old(s.items[s.leases[leaseID]]) && sameExcept(s.items[old(s.leases[leaseID])], LeaseUntil, NextRunAt) && s.items[old(s.leases[leaseID])].LeaseUntil == old(s.items[s.leases[leaseID]].LeaseUntil) + extendBy && s.items[old(s.leases[leaseID])].NextRunAt == s.items[old(s.leases[leaseID])].LeaseUntil
